@@ -135,9 +135,10 @@ def make_case(rng, r):
             while p == list(range(nsrc)):
                 r.shuffle(p)
             est = est[p]
-    if r.random() < 0.15:
+    x256 = r.random() < 0.08
+    if x256 or r.random() < 0.15:
         # integer PCM (as read from a wav file) incl. negative full scale
-        dt = r.choice([np.int16, np.int16, np.uint8, np.int32])
+        dt = np.int16 if x256 else r.choice([np.int16, np.int16, np.uint8, np.int32])
         if dt == np.uint8:
             ref = np.clip(np.round(ref * 40 + 128), 0, 255).astype(dt)
             est = np.clip(np.round(est * 40 + 128), 0, 255).astype(dt)
@@ -145,7 +146,13 @@ def make_case(rng, r):
             ref = np.clip(np.round(ref * 9000), -32768, 32767).astype(dt)
             est = np.clip(np.round(est * 9000), -32768, 32767).astype(dt)
             ref.flat[0] = -32768
-        if kind == "perfect":
+        if x256:
+            # 8-bit material left-justified in int16: every sample a multiple of 256
+            # (a +256 offset keeps every sum away from zero)
+            ref = ((ref.astype(np.int32) // 256 + 1) * 256).clip(-32768, 32512).astype(dt)
+            est = ((est.astype(np.int32) // 256 + 1) * 256).clip(-32768, 32512).astype(dt)
+            kind += "/x256"
+        if kind.startswith("perfect"):
             est = ref.copy()
         kind += "/" + np.dtype(dt).name
     return {"ref": ref, "est": est, "nsrc": nsrc, "nchan": nchan, "L": L, "kind": kind}
@@ -251,6 +258,36 @@ def run_case(ctx, mods, cap, cs, r):
         ctx.violation("C19/separation.%s/no-permutation" % fn, "no-permutation",
                       "separation." + fn, "compute_permutation=False returns perm %r"
                       % resn[nmet].tolist(), case)
+    # evaluate() reports the four families with their own defaults
+    # (compute_permutation True for the plain, False for the framewise calls)
+    if r.random() < 0.35:
+        ev = sep.evaluate(ref, est)
+        ctx.ev()
+        ctx.count("relation.evaluate_vs_direct")
+        want = {}
+        if images:
+            names = ["Source to Distortion", "Image to Spatial", "Source to Interference",
+                     "Source to Artifact", "Source permutation"]
+            for pre, fun in (("Images - ", sep.bss_eval_images),
+                             ("Images Frames - ", sep.bss_eval_images_framewise)):
+                for nm, v in zip(names, fun(ref, est)):
+                    want[pre + nm] = v
+        else:
+            names = ["Source to Distortion", "Source to Interference",
+                     "Source to Artifact", "Source permutation"]
+            for pre, fun in (("Sources - ", sep.bss_eval_sources),
+                             ("Sources Frames - ", sep.bss_eval_sources_framewise)):
+                for nm, v in zip(names, fun(ref, est)):
+                    want[pre + nm] = v
+        for k2, v in want.items():
+            if k2 not in ev or not np.array_equal(np.asarray(ev[k2], dtype=float),
+                                                  np.asarray(v, dtype=float), equal_nan=True):
+                ctx.violation("C19/separation.evaluate/differs-from-direct-call",
+                              "differs-from-direct-call", "separation.evaluate",
+                              "evaluate()[%r] = %s, the direct call gives %s" % (
+                                  k2, short(ev.get(k2), 100), short(np.asarray(v).tolist(), 100)),
+                              case)
+                break
     # a single source may be given as a 1-d signal
     if nsrc == 1 and not images and ref.ndim == 2:
         res1 = f(ref[0], est[0])
@@ -418,8 +455,22 @@ def run_shard(spec, ctx):
             try:
                 run_case(ctx, mods, cap, cs, r)
             except Exception as e:  # noqa: BLE001
+                # every generated case is a valid, non-silent source set: nothing may
+                # be raised on it (the monitors' own code is outside this call)
                 ctx.count("driver.raised")
                 ctx.hist("driver.raised", "%s: %s" % (type(e).__name__, str(e)[:80]))
+                import traceback
+                tb = traceback.extract_tb(e.__traceback__)
+                where = tb[-1].filename if tb else ""
+                if "mir_eval" in where or "numpy" in where or "scipy" in where:
+                    ctx.violation("C19/separation/raises-on-valid-input/%s" % type(e).__name__,
+                                  "raises-on-valid-input", "separation.bss_eval",
+                                  "%s: %s on a valid source set (%s)" % (
+                                      type(e).__name__, str(e)[:120], cs["kind"]),
+                                  {"kind": "case", "ref": cs["ref"], "est": cs["est"]})
+                else:
+                    ctx.mark_inconclusive("driver error: %s: %s" % (type(e).__name__,
+                                                                    str(e)[:200]))
     ctx.count("poisoned_allocations", sum(p.__dict__["poisoned_allocations"]
                                           for p in proxies.values()))
 
